@@ -17,6 +17,11 @@ use std::str::FromStr;
 use std::string::ToString;
 use std::sync::atomic::{AtomicU32, Ordering};
 use std::sync::mpsc::{channel, Receiver, Sender};
+#[cfg(feature = "Verif_Hooks")]
+use crate::verif_sync::Mutex;
+#[cfg(feature = "Verif_Hooks")]
+use std::sync::Arc;
+#[cfg(not(feature = "Verif_Hooks"))]
 use std::sync::{Arc, Mutex};
 use std::thread::JoinHandle;
 use std::{fmt, thread};
